@@ -130,7 +130,7 @@ theorem clone_conforming_fs (H : Bytes → Bytes) (hH : ∀ x, (H x).length = 64
     { seedOutput := kc.flags.seedOutput, verifyOutput := kc.flags.verifyOutput, headerPin := kc.pin,
       blockDev := false } d (kc.seedPaths.filterMap fun p => (fs2.get p).map (·.data))
     a src cks hinit hd hs
-    (by intro pin hp; rw [hpin] at hp; cases hp) (by intro h; cases h) (by intro h; cases h)
+    (by intro pin hp; rw [hpin] at hp; cases hp) (by intro h; cases h)
   rcases hcomp with ⟨hok, _, hsrc⟩ | hcoll
   · left
     rw [hclone, hrok, hrfs, hsrc rfl, fs_set_get_same]
